@@ -54,12 +54,12 @@ func TestVerifDriver(t *testing.T) {
 		}
 	}
 	VRun(t, "gear", []VCase{
-		{Ep: "SentinelMiddleware", Variant: "default", Wraps: true, Errsig: true, Fb: "default", Res: path("d", "GET:"), Send: mk("d")},
-		{Ep: "SentinelMiddleware", Variant: "extractor", Options: []string{"WithResourceExtractor"}, Wraps: true, Errsig: true, Fb: "default",
+		{Ep: "SentinelMiddleware", Side: "server", Variant: "default", Wraps: true, Errsig: true, Fb: "default", Res: path("d", "GET:"), Send: mk("d")},
+		{Ep: "SentinelMiddleware", Side: "server", Variant: "extractor", Options: []string{"WithResourceExtractor"}, Wraps: true, Errsig: true, Fb: "default",
 			Res: path("e", "custom:"), Send: mk("e", extract)},
-		{Ep: "SentinelMiddleware", Variant: "fallback", Options: []string{"WithBlockFallback"}, Wraps: true, Errsig: true, Fb: "custom",
+		{Ep: "SentinelMiddleware", Side: "server", Variant: "fallback", Options: []string{"WithBlockFallback"}, Wraps: true, Errsig: true, Fb: "custom",
 			Res: path("f", "GET:"), Send: mk("f", fallback)},
-		{Ep: "SentinelMiddleware", Variant: "extractor+fallback", Options: []string{"WithResourceExtractor", "WithBlockFallback"}, Wraps: true, Errsig: true,
+		{Ep: "SentinelMiddleware", Side: "server", Variant: "extractor+fallback", Options: []string{"WithResourceExtractor", "WithBlockFallback"}, Wraps: true, Errsig: true,
 			Fb: "custom", Res: path("ef", "custom:"), Send: mk("ef", extract, fallback)},
 	})
 }
